@@ -30,6 +30,10 @@ Bus-level clauses are stated on the registered PHY outputs as functions of `bus`
 The memory drives RWDS during the command phase (latency indication) and during read data, and DQ during read data; so
 "never while the memory drives them" = RWDS is never enabled outside the data phase of a memory write, and DQ is never
 enabled in a read transaction after its command phase.
+
+Remark (not a clause of C53): after a register write the controller is back in IDLE one clock later; if start_transfer is
+still high then (the class allows a 1-8 cycle strobe, a register write takes 6), the next transaction starts with CS never
+released in between (cover `back_to_back_after_register_write` shows it is reachable).
 """
 import z3
 from hwv.contract import B, bits, zx, bvc
